@@ -1,6 +1,6 @@
 (* C20 -- Query services return exactly the selected states and texts.
    Property theorems only (model: Query/Model.v). *)
-From Coq Require Import List ZArith.
+From Coq Require Import List ZArith Permutation.
 From SDC Require Import Query.Model Query.Proofs.
 Import ListNotations.
 Open Scope Z_scope.
@@ -75,6 +75,68 @@ Theorem C20_languages_exact : forall st,
   (forall l, In l (supported_languages st) <-> exists t, In t (all_texts st) /\ x_lang t = l).
 Proof. exact supported_languages_exact. Qed.
 Print Assumptions C20_languages_exact.
+
+(* ---------------------------------------------------------------- histories on one storage
+   [state_after ops] is the storage after any sequence of add / GetSupportedLanguages / GetLocalizedText
+   operations (a GetLocalizedText request creates empty entries for unknown Refs: [st_touch]). *)
+
+(* the storage stays a dict whose entry for a Ref holds texts of that Ref only ... *)
+Theorem C20_history_storage_wf : forall ops, st_wf (state_after ops).
+Proof. exact state_after_wf. Qed.
+Print Assumptions C20_history_storage_wf.
+
+(* ... and holds exactly the added texts, as a multiset: no query stores, drops or duplicates a text *)
+Theorem C20_history_holds_exactly_added : forall ops, Permutation (all_texts (state_after ops)) (added ops).
+Proof. exact state_after_holds_added. Qed.
+Print Assumptions C20_history_holds_exactly_added.
+
+(* soundness at every moment of every history, without side condition on the storage *)
+Theorem C20_history_text_sound : forall ops refs version langs widths lines both_key t,
+  In t (filter_texts (state_after ops) refs version langs widths lines both_key) ->
+  text_ok (state_after ops) refs version langs widths lines t.
+Proof. exact history_text_sound. Qed.
+Print Assumptions C20_history_text_sound.
+
+(* exactness: without TextWidth / NumberOfLines the answer IS the selection (every selected stored text
+   exactly as often as it is stored), for requests that name each Ref once *)
+Theorem C20_text_exact_without_size_constraints : forall st refs version langs both_key,
+  st_wf st -> NoDup refs ->
+  Permutation (filter_texts st refs version langs [] [] both_key)
+              (filter (text_selected st refs version langs) (all_texts st)).
+Proof. exact filter_texts_exact. Qed.
+Print Assumptions C20_text_exact_without_size_constraints.
+
+Theorem C20_history_text_exact : forall ops refs version langs both_key, NoDup refs ->
+  Permutation (filter_texts (state_after ops) refs version langs [] [] both_key)
+              (filter (text_selected (state_after ops) refs version langs) (all_texts (state_after ops))).
+Proof. exact history_text_exact. Qed.
+Print Assumptions C20_history_text_exact.
+
+(* GetSupportedLanguages after any history: exactly the languages of the texts added so far, each once *)
+Theorem C20_history_languages_exact : forall ops,
+  NoDup (supported_languages (state_after ops)) /\
+  (forall l, In l (supported_languages (state_after ops)) <-> exists t, In t (added ops) /\ x_lang t = l).
+Proof. exact history_languages_exact. Qed.
+Print Assumptions C20_history_languages_exact.
+
+(* the answers are functions of the stored MULTISET: two storages with the same texts (whatever the order of
+   keys and texts, whatever empty entries) answer alike; a cache or index must therefore be invisible *)
+Theorem C20_answers_depend_on_stored_multiset : forall st1 st2 refs version langs bk1 bk2,
+  st_wf st1 -> st_wf st2 -> Permutation (all_texts st1) (all_texts st2) -> NoDup refs ->
+  Permutation (filter_texts st1 refs version langs [] [] bk1) (filter_texts st2 refs version langs [] [] bk2) /\
+  (forall l, In l (supported_languages st1) <-> In l (supported_languages st2)).
+Proof. exact answers_depend_on_multiset. Qed.
+Print Assumptions C20_answers_depend_on_stored_multiset.
+
+(* a history: languages asked, a known Ref gets a new language, an unknown Ref is requested and stored later,
+   width / line variants with equal Ref + Lang + Version are all returned *)
+Example C20_history_nonvacuous :
+  let t1 := mkT 1 1 1 (Some 1) (Some 0) 1 in let t2 := mkT 2 1 2 (Some 1) (Some 0) 1 in
+  let t3 := mkT 3 1 1 (Some 1) (Some 2) 2 in let t4 := mkT 4 7 3 (Some 1) None 1 in
+  run_hist (fun _ => 0) [LAdd t1; LLangs; LAdd t2; LLangs; LText [7] None [] [] []; LAdd t4; LLangs;
+                         LAdd t3; LAdd t1; LText [] None [1] [] []; LText [1] None [] [0; 2] []] []
+  = [[1]; [1; 2]; []; [1; 2; 3]; [1; 3; 1]; [1; 3; 2; 2]].
+Proof. vm_compute. reflexivity. Qed.
 
 Example C20_nonvacuous :
   let m := mkQM [mkQ false 1 1 100; mkQ false 2 2 200]
